@@ -397,20 +397,7 @@ Proof.
   all: clear Hres; fin.
 Qed.
 
-(* ---- C_CopyObject: the source object must be readable by the session and copyable ------------------------------------ *)
-Theorem CopyObject_guards (e : C_CopyObject.env) :
-  bounded (C_CopyObject.haveRead e) -> C_CopyObject.zz_rest e = SENTINEL ->
-  C_CopyObject.app e = SENTINEL ->
-  let ogb := C_CopyObject.object_getBooleanValue e in
-  C_CopyObject.haveRead e (C_CopyObject.session_getState e) (ogb CKA_TOKEN false) (ogb CKA_PRIVATE true) = CKR_OK /\
-  ogb CKA_COPYABLE true <> 0.
-Proof.
-  destruct e. cbn [C_CopyObject.haveRead C_CopyObject.zz_rest]. intros Hb Hz. subst.
-  C_CopyObject.open_env. open_head.
-  all: try bound_contra.
-  all: cbv [CKR_OK CKA_TOKEN CKA_PRIVATE CKA_COPYABLE] in *.
-  all: clear Hres; fin.
-Qed.
+(* C_CopyObject: see P11/CopyFacts.v (the function is regenerated whole, in effect mode, in gen/Gen_Ops.v) *)
 
 (* ---- C_DigestInit: the mechanism must be in the configured list ---------------------------------------------------- *)
 Theorem DigestInit_guards (e : C_DigestInit.env) :
